@@ -71,7 +71,7 @@ def gen(rng, i, ctx):
                 'baseline': rpoly(rng, int(rng.integers(2, 7)), cmode),
                 'polygon': rpoly(rng, int(rng.integers(3, 13)), cmode),
                 'heights': None if rng.random() < 0.3 else [float(rng.choice([0.0, 0.05, 0.25, 12.35, float(rng.uniform(0, 80))])), float(rng.uniform(0, 40))],
-                'index': [None, l, l + 5, 100 - l][int(rng.integers(0, 4))],
+                'index': [None, l, l + 5, 100 - l, 0, int(rng.integers(0, 4))][int(rng.integers(0, 6))],
                 'transcription': t, 'conf': conf})
         regions.append({'id': 'r%d' % r if rng.random() < 0.8 else 'reg-%d_x' % r, 'polygon': rpoly(rng, int(rng.integers(3, 13)), cmode),
                         'type': [None, 'paragraph', 'heading', 'caption'][int(rng.integers(0, 4))],
